@@ -1,4 +1,5 @@
 import ApolloModel.Proofs.Standalone3
+import ApolloModel.Model.ExecRules
 /-
 C20 — Validating without a schema is a relaxation.
 
@@ -174,5 +175,71 @@ example : noDirsAst [.op { ty := .query, name := none, vars := [], dirs := [], s
 -- universal classes do fire without a schema: `{ ...Nope }`
 example : validate (patchedParams fun _ => []) none
     [.op { ty := .query, name := none, vars := [], dirs := [], sels := .spread 41 [] .nil }] = [.undefinedFragment] := by decide
+
+/-! ### with the typed rules modelled (Model/ExecRules.lean) instead of opaque
+
+`Schema.extra` above stands for "the diagnostics of the typed rules that are not modelled".  Model/ExecRules.lean
+(C17) models those rules: `validate_variable_usage`, the variable part of `value_of_correct_type`,
+`validate_fragment_spread_type`.  Every one of them is behind a schema guard in the code —
+field.rs `let Some((schema, against_type)) = against_type else { … }`, fragment.rs `if let Some(schema) =
+context.schema()` (spread, inline fragment and fragment definition), directive.rs / variable.rs `schema: Option<&Schema>`
+— so a run without a schema executes none of them: in the model they are functions of an `RSchema`, and the
+schema-less run consists of the structural rules alone.  The schema view of the structural rules is derived from the
+same `RSchema` (`ExecRules.viewOf`), with NO opaque part. -/
+
+end Apollo.C20
+namespace Apollo.C20
+open Apollo.ExecRules
+
+/-- a diagnostic of an executable validation run: of a structural rule (on the erased document) or of a typed rule -/
+inductive AnyDiag where
+  | structural (d : Standalone.Diag)
+  | typed (d : TDiag)
+
+/-- `ExecutableDocument::parse_and_validate(schema, …)`: structural and typed rules -/
+def validateWithSchema (p : Standalone.Params) (tbl : List String) (s : RSchema) (ast : RAst) : List AnyDiag :=
+  (Standalone.validate p (some (viewOf tbl s)) (erase tbl ast)).map .structural ++ (typedDiags s ast).map .typed
+
+/-- `ast::Document::validate_standalone_executable()`: the typed rules are all skipped -/
+def validateStandalone (p : Standalone.Params) (tbl : List String) (ast : RAst) : List AnyDiag :=
+  (Standalone.validate p none (erase tbl ast)).map .structural
+
+/-- the schema view the structural rules read has no opaque diagnostics any more -/
+theorem view_has_no_opaque_part (tbl : List String) (s : RSchema) (doc : Standalone.BuiltDoc) : (viewOf tbl s).extra doc = [] := rfl
+
+/-- **standalone ⊆ schema validation, typed rules included**: for every schema, name table, document and `@defer` rule
+    set, a document on which validation against the schema reports nothing — neither a structural nor a typed
+    diagnostic — validates standalone. -/
+theorem standalone_subset_typed (defer : Standalone.BuiltDoc → List Nat) (tbl : List String) (s : RSchema) (ast : RAst)
+    (h : validateWithSchema (Standalone.currentParams defer) tbl s ast = []) :
+    validateStandalone (Standalone.currentParams defer) tbl ast = [] := by
+  unfold validateWithSchema at h
+  unfold validateStandalone
+  simp only [List.append_eq_nil_iff, List.map_eq_nil_iff] at h ⊢
+  exact standalone_subset defer (viewOf tbl s) (erase tbl ast) h.1
+
+/-- a standalone run reports no typed diagnostic, and only structural diagnostics of the universal classes -/
+theorem standalone_reports_no_typed (defer : Standalone.BuiltDoc → List Nat) (tbl : List String) (ast : RAst) :
+    ∀ d ∈ validateStandalone (Standalone.currentParams defer) tbl ast, ∃ e, d = .structural e ∧ e.universal = true := by
+  intro d hd
+  unfold validateStandalone at hd
+  obtain ⟨e, he, rfl⟩ := List.mem_map.mp hd
+  exact ⟨e, rfl, standalone_only_universal defer (erase tbl ast) e he⟩
+
+/-- the typed rules matter for the comparison: there are documents whose ONLY diagnostics against a schema are typed
+    ones — they are rejected with the schema and accepted standalone (the inclusion is strict in the typed part).
+    `query { f(x: {a: [$w]}) }` with `x` of a custom scalar type: `$w` is undefined (fix 1d09582) -/
+def typedWitnessSchema : RSchema :=
+  { types := [{ name := "Query", kind := .object [], fields := [("f", { args := [{ name := "x", ty := .named "S", hasDefault := false }], ty := .named "Int" })] },
+              { name := "S", kind := .scalar false, fields := [] }],
+    query := some "Query", mutation := none, subscription := none, dirs := [] }
+
+def typedWitnessOp : ROp :=
+  { ty := .query, name := none, vars := [], dirs := [],
+    sels := .field "f" [] [{ name := "x", value := .obj [("a", .list [.var "w"])] }] .nil .nil }
+
+theorem typed_rule_rejects_what_standalone_accepts :
+    typedDiags typedWitnessSchema [.op typedWitnessOp] = [.undefinedVariable "w"] := by
+  decide
 
 end Apollo.C20
